@@ -63,12 +63,17 @@ def run(chk):
         out2 = json.loads(vlib.harness("gensfacts", "--curve", c, "--cap", cap, "--parties", parties).stdout)
         if out2["digest_G"] != facts["digest_G"] or out2["digest_H"] != facts["digest_H"]:
             chk.violation("gens-process-%s" % c, {"curve": c}, "generator table differs between two processes")
+    # (B3) recorded lives of generator tables (both roles of random sessions on toy curves): every stored table after new / increase_capacity /
+    # clone / serialise+deserialise and every aggregated view is a window of ONE generator function for the whole trace file (Library!Holds,
+    # GensView), and the generators prove / verify work with are party 0's window of the role's table (GensBound)
+    for curve, n in (("toy31723", 150 if q else 2000), ("toy79", 150 if q else 2000)):
+        vlib.session_traces(chk, curve, n, vlib.flags(G=1), "table-session", seed_off=50)
     chk.finish(
         rule="TLC enumerates every history new(c0) ; (increase_capacity(c) | serialise+deserialise | clone)* with capacities <= %d, parties <= %d, <= %d "
              "operations, checks HistoryIndependent and ViewPartyMajor on the model, and prints each history with the expected capacity after every "
              "step and the expected content of every view G(n,m)/H(n,m), 0 <= n <= capacity, 0 <= m <= parties; each is executed on the real tables "
              "(secq256k1, zorro, curve25519, toy79) and compared entry by entry with a freshly built maximal table. Distinctness, non-identity, "
-             "prime order and the digests pinned from the reference revision are checked on tables of %d x %d. distinct = distinct (curve, history)"
+             "prime order and the digests pinned from the reference revision are checked on tables of %d x %d. Recorded table lives of random sessions on toy31723 / toy79 are validated against Library.tla (one generator function per trace file). distinct = distinct (curve, history)"
              % (mx[0], mx[1], mx[2], cap, parties),
         assumptions=["Chain(kind, party, i) is identified with entry i of a freshly built table of maximal capacity; its absolute value is pinned by digest",
                      "view preconditions n <= capacity, m <= party capacity"],
